@@ -1,14 +1,74 @@
 package main
 
+import (
+	"encoding/json"
+	"flag"
+	"fmt"
+	"os"
+	"path/filepath"
+	"strings"
+)
+
 type ReplayResult struct {
 	Confirmed bool              `json:"confirmed"`
 	Inputs    map[string]string `json:"inputs,omitempty"`
 	Test      string            `json:"test,omitempty"`
 	Output    string            `json:"output,omitempty"`
 	Note      string            `json:"note,omitempty"`
+	PkgDir    string            `json:"pkg_dir,omitempty"`
 }
 
 // tryReplay turns a sat model into a Go test against the real function (see replay_impl.go).
 func tryReplay(prog *Program, o *Obligation, verif string) *ReplayResult {
-	return replayImpl(prog, o, verif)
+	r := replayImpl(prog, o, verif)
+	if r != nil && o.ctx != nil && o.ctx.fi != nil && len(o.ctx.fi.Pkg.GoFiles) > 0 {
+		r.PkgDir = filepath.Dir(o.ctx.fi.Pkg.GoFiles[0])
+	}
+	return r
+}
+
+// cmdReplay re-runs the generated test of a replay file against the current tree.
+// exit 1 = the recorded behaviour (same panic / same results) is reproduced; 0 = it is not.
+func cmdReplay(args []string) int {
+	fs := flag.NewFlagSet("replay", flag.ExitOnError)
+	file := fs.String("file", "", "replay file written by a check")
+	fs.Parse(args)
+	data, err := os.ReadFile(*file)
+	if err != nil {
+		fmt.Fprintln(os.Stderr, err)
+		return 2
+	}
+	var rec struct {
+		Property   string        `json:"property"`
+		Obligation string        `json:"obligation"`
+		Reason     string        `json:"reason"`
+		Replay     *ReplayResult `json:"replay"`
+		Output     string        `json:"solver_output"`
+	}
+	if err := json.Unmarshal(data, &rec); err != nil {
+		fmt.Fprintln(os.Stderr, err)
+		return 2
+	}
+	fmt.Printf("property=%s obligation=%s\n%s\n", rec.Property, rec.Obligation, rec.Reason)
+	if rec.Replay == nil || rec.Replay.Test == "" || rec.Replay.PkgDir == "" {
+		fmt.Println("no executable counterexample recorded (no-failing-input-found); solver output:")
+		fmt.Println(truncate(rec.Output, 2000))
+		return 1
+	}
+	out, _ := runReplayTestDir(rec.Replay.PkgDir, rec.Replay.Test)
+	fmt.Println(out)
+	same := true
+	for _, line := range strings.Split(rec.Replay.Output, "\n") {
+		if strings.HasPrefix(line, "GOCV-PANIC") || strings.HasPrefix(line, "GOCV-RESULT") {
+			if !strings.Contains(out, line) {
+				same = false
+			}
+		}
+	}
+	if same && rec.Replay.Confirmed {
+		fmt.Printf("VIOLATION property=%s replay=%s\n", rec.Property, *file)
+		return 1
+	}
+	fmt.Println("the recorded behaviour is not reproduced on the current tree")
+	return 0
 }
